@@ -82,6 +82,7 @@ class World(object):
         self.attempts = {}          # (tag, i) -> count
         self.action_runs = []       # (tag, i, attempt) actually executed by the executor
         self.step_exc = None
+        self.sync_delivered = []    # ids of messages served synchronously (candidates for redelivery)
         self.dispatched = {}        # action_ex id -> number of run_action messages created
         self.writes = []
         self._install()
@@ -137,6 +138,8 @@ class World(object):
                 # waits: run the delivery in a helper thread (own thread-locals: auth context,
                 # post-commit queue), never inside the caller's stack
                 m = self._mk(ctx, method, True, kwargs)
+                if method in ('on_action_complete', 'start_workflow'):
+                    world.sync_delivered.append(m.id)
                 box = {}
 
                 def serve():
@@ -548,7 +551,8 @@ class World(object):
         c = self.engine_client
         if op == 'start':
             wf, inp, params = st[2], st[3], (st[4] if len(st) > 4 else {})
-            r = c.start_workflow(wf, '', None, inp, **params)
+            import uuid
+            r = c.start_workflow(wf, '', str(uuid.UUID(int=self.rnd.getrandbits(128))), inp, **params)
             ev['result'] = r.id if hasattr(r, 'id') else (r or {}).get('id')
         elif op == 'pause':
             c.pause_workflow(st[2])
